@@ -71,6 +71,12 @@ def specInit (P : Params) (groups : List Rat) : SpecState :=
       | some l => groups.map (fun _ => l)
       | none => groups }
 
+/-- the rules started on an optimizer that was *not* synchronised with `log10_learning_rate`
+(no `load_model_and_optimizer_for_epoch` at epoch 0): the rate the rules multiply is still the
+recorded one, the optimizer's groups keep their own rates until the first reduction -/
+def specInitRaw (P : Params) (groups : List Rat) : SpecState :=
+  { specInit P groups with groups := groups }
+
 /-- one epoch of a criterion that is not firing: wait, fail, or reset -/
 def Crit.next (P : Params) (thr : Rat) (c : Crit) (e : Nat) (v : Rat) : Crit :=
   if c.wait ≠ 0 then { refEpoch := e, ref := some v, fails := 0, wait := c.wait - 1 }
@@ -111,5 +117,12 @@ nothing; the code keeps going with a sliding reference — modelled, not specifi
 def liveRun (P : Params) : SpecState → List Rat → Prop
   | _, [] => True
   | T, v :: vs => T.es.fails < P.esPat ∧ liveRun P (specStep P T v).1 vs
+
+/-- the rules applied epoch by epoch until they say stop (that epoch included) -/
+def specUntilStop (P : Params) : SpecState → List Rat → List SpecOut
+  | _, [] => []
+  | T, v :: vs =>
+    if (specStep P T v).2.stop then [(specStep P T v).2]
+    else (specStep P T v).2 :: specUntilStop P (specStep P T v).1 vs
 
 end PdtVerif.TrainingRules
